@@ -74,7 +74,7 @@ Proof.
   assert (Triv : roots_ok s /\ (exists new, sroots s = sroots s ++ new) /\
                  (forall j rj, nth_error (sroots s) j = Some rj -> receiver e <> Some j -> same_subheap (sh s) (sh s) rj)).
   { split; auto. split; [exists []; rewrite app_nil_r; reflexivity|]. intros; apply same_subheap_refl. }
-  destruct e as [i acts|i|i|ci a|ci subs name|i span n' positions fills]; simpl in OK; try discriminate; simpl.
+  destruct e as [i acts|i|i|ci a|ci subs name|i span n' positions fills]; simpl in OK; try discriminate; cbn [run_event].
   - (* an operation of root i *)
     destruct (nth_error (sroots s) i) as [r|] eqn:Er; [|exact Triv].
     destruct (run_actions (sh s) r acts) as [h' ok] eqn:Run. cbn [fst].
@@ -82,8 +82,10 @@ Proof.
     assert (Br : (r < length (sh s))%nat) by (apply B; eapply nth_error_In; eauto).
     destruct (actions_frame _ _ _ _ _ Run W Br OK) as (W' & L & U & Rr).
     assert (Oth : forall j rj, nth_error (sroots s) j = Some rj -> j <> i -> same_subheap (sh s) h' rj /\ sep h' r rj).
-    { intros j rj Hj Nj. eapply actions_leave_others; eauto.
-      - apply B; eapply nth_error_In; eauto.
+    { intros j rj Hj Nj.
+      apply (actions_leave_others (sh s) r acts h' ok rj Run W Br).
+      - apply B; eapply nth_error_In; exact Hj.
+      - exact OK.
       - eapply S; [| exact Er | exact Hj]. auto. }
     split; [|split].
     + split; [exact W'|]. split.
@@ -92,7 +94,7 @@ Proof.
         destruct (Nat.eq_dec a i) as [->|Na]; destruct (Nat.eq_dec b i) as [->|Nb]; try congruence.
         -- rewrite Er in Ha; inversion Ha; subst. apply (Oth b rb Hb Nb).
         -- rewrite Er in Hb; inversion Hb; subst. apply sep_sym. apply (Oth a ra Ha Na).
-        -- eapply sep_same_subheap; [apply (Oth a ra Ha Na) | apply (Oth b rb Hb Nb) | eapply S; eauto].
+        -- eapply sep_same_subheap; [apply (Oth a ra Ha Na) | apply (Oth b rb Hb Nb) | exact (S a b ra rb Nab Ha Hb)].
     + exists []. simpl. rewrite app_nil_r; reflexivity.
     + intros j rj Hj Nj. simpl. apply (Oth j rj Hj). intros ->. apply Nj. reflexivity.
   - (* copy(), copy.copy(), copy.deepcopy() *)
@@ -140,8 +142,8 @@ Proof.
     + exists (new1 ++ new2). rewrite N2, N1, app_assoc. reflexivity.
     + intros j rj Hj NR.
       eapply same_subheap_trans.
-      * apply U1; auto. apply NR. simpl; auto.
-      * apply U2.
+      * apply (U1 j rj Hj). apply NR. simpl; auto.
+      * apply (U2 j rj).
         -- rewrite N1. rewrite nth_error_app1; auto. apply nth_error_Some. congruence.
         -- intros e' He'. apply NR. simpl; auto.
 Qed.
@@ -153,7 +155,7 @@ Corollary history_view_unchanged K es s j rj n :
   view n (sh (run_events K s es)) (VR rj) = view n (sh s) (VR rj).
 Proof.
   intros RO OK Hj NR. apply view_of_same_subheap.
-  destruct (history_independent K es s RO OK) as (_ & _ & U). apply U; auto.
+  destruct (history_independent K es s RO OK) as (_ & _ & U). apply (U j rj Hj NR).
 Qed.
 
 (* copy_independent: take a copy at any point (state s), then run ANY history: whichever side is not the receiver
@@ -195,9 +197,9 @@ Theorem siblings_independent K s ci a1 a2 es :
     = view n (sh (run_events K s [EInit ci a1; EInit ci a2])) (VR rj).
 Proof.
   intros RO O1 O2 OK.
-  assert (OK2 : forallb event_ok [EInit ci a1; EInit ci a2] = true) by (simpl; rewrite O1, O2; reflexivity).
+  assert (OK2 : forallb event_ok [EInit ci a1; EInit ci a2] = true) by (cbn [forallb]; rewrite O1, O2; reflexivity).
   destruct (history_independent K _ s RO OK2) as (RO2 & _ & _).
-  split; [exact RO2|]. intros j rj n Hj NR. apply history_view_unchanged; auto.
+  split; [exact RO2|]. intros j rj n Hj NR. apply (history_view_unchanged K es _ j rj n RO2 OK Hj NR).
 Qed.
 
 (* instantiation leaves the class (and everything else) untouched: it only reads class attributes *)
@@ -206,7 +208,7 @@ Theorem init_leaves_class K s ci a j rj n :
   view n (sh (run_event K s (EInit ci a))) (VR rj) = view n (sh s) (VR rj).
 Proof.
   intros RO OK Hj. apply view_of_same_subheap.
-  destruct (event_independent K s (EInit ci a) RO OK) as (_ & _ & U). apply U; auto. simpl; discriminate.
+  destruct (event_independent K s (EInit ci a) RO OK) as (_ & _ & U). apply (U j rj Hj). simpl; discriminate.
 Qed.
 
 (* ------------------------------------------------------------------ decidable sufficient condition for roots_ok *)
@@ -260,7 +262,7 @@ Proof.
   destruct i as [|i], j as [|j]; simpl in *; try congruence.
   - inversion Hi; subst. apply P1. eapply nth_error_In; eauto.
   - inversion Hj; subst. apply disjointb_sym. apply P1. eapply nth_error_In; eauto.
-  - eapply IH; eauto.
+  - apply (IH i j a b P2); [lia | exact Hi | exact Hj].
 Qed.
 
 Definition roots_okb (s : state) : bool :=
@@ -278,6 +280,7 @@ Proof.
     pose proof (F ri (nth_error_In _ _ Hi)) as Fi. pose proof (F rj (nth_error_In _ _ Hj)) as Fj.
     apply andb_true_iff in Fi as [Fi Mi]. apply andb_true_iff in Fi as [_ Ci].
     apply andb_true_iff in Fj as [Fj Mj]. apply andb_true_iff in Fj as [_ Cj].
-    eapply sep_by_closed; eauto; try (apply mem_nat_in; auto).
-    eapply pairwise_disjoint_nth; eauto; apply map_nth_error; auto.
+    apply (sep_by_closed (sh s) ri rj (reach_list (sh s) ri) (reach_list (sh s) rj) Ci);
+      [apply mem_nat_in; exact Mi | exact Cj | apply mem_nat_in; exact Mj |].
+    apply (pairwise_disjoint_nth _ i j _ _ P N); apply map_nth_error; assumption.
 Qed.
